@@ -214,8 +214,13 @@ def gen_dataset_case(rng, confirm, i):
         root_mode = "inferred"
     verify = rng.random() < 0.35
     bad_schema = verify and k >= 2 and rng.random() < 0.5
+    # list variations: the same file twice; paths relative to the working directory; the root with a trailing slash
+    dup = rng.randrange(k) if (shape != "subdatasets" and not bad_schema and rng.random() < 0.15) else None
+    relative = root_mode == "inferred" and shape != "subdatasets" and rng.random() < 0.2
+    if root_mode == "given" and rng.random() < 0.3:
+        root_mode = "given-slash"
     return {"shape": shape, "files": files, "root_mode": root_mode, "cat_mode": cat_mode, "verify": verify,
-            "bad_schema": rng.randrange(1, k) if bad_schema else None}
+            "bad_schema": rng.randrange(1, k) if bad_schema else None, "dup": dup, "relative": relative}
 
 
 def _frame(spec, bad=False):
@@ -279,7 +284,7 @@ def check_dataset(case, root, pq, ctx=None, verbose=False):
     singles = []
     for p in paths:
         singles.append(ParquetFile(p).to_pandas())
-    given_root = root if case["root_mode"] == "given" else None
+    given_root = {"given": root, "given-slash": root + "/"}.get(case["root_mode"])
 
     def expected(order, base_dir, use):
         rows = []
@@ -310,7 +315,7 @@ def check_dataset(case, root, pq, ctx=None, verbose=False):
         pc = [c for c in df.columns if c not in cols] if shape != "subdatasets" else []
         return _canon_frame(df, [c for c in cols if c in use] + (["k"] if shape == "subdatasets" else []) + pc)
 
-    cls0 = {"shape": shape, "categorical": case["cat_mode"],
+    cls0 = {"shape": shape, "relative": bool(case.get("relative")), "categorical": case["cat_mode"],
             "dictionaries_differ": case["cat_mode"] == "differ" and len({tuple(f["cats"]) for f in case["files"]}) > 1}
 
     def compare(via, fn, order, base_dir, **kw):
@@ -360,13 +365,30 @@ def check_dataset(case, root, pq, ctx=None, verbose=False):
         return pf
 
     order = list(range(len(paths)))
-    base = given_root or inferred_base()
+    uniq_order = list(order)
+    base = root if given_root else inferred_base()
     verify = case["verify"]
+    if case.get("dup") is not None:           # the same file twice in the list: its rows twice
+        order.append(case["dup"])
+    plist = [paths[j] for j in order]
+    if case.get("relative"):                  # paths relative to the working directory (this is a forked worker)
+        os.chdir(root)
+        plist = [os.path.relpath(p, root) for p in plist]
+    try:
+        return _vias(case, root, pq, ctx, compare, plist, paths, order, uniq_order, base, given_root, verify, problems, vias, say)
+    finally:
+        os.chdir("/")
+
+
+def _vias(case, root, pq, ctx, compare, plist, paths, order, uniq_order, base, given_root, verify, problems, vias, say):
+    import fsspec
+    from fastparquet import ParquetFile, writer, util
+    shape = case["shape"]
     # ---- via list (default filesystem: fast path for >= 3 single files unless verify)
-    pf = compare("list", lambda: ParquetFile(list(paths), verify=verify, **({"root": given_root} if given_root else {})),
+    pf = compare("list", lambda: ParquetFile(list(plist), verify=verify, **({"root": given_root} if given_root else {})),
                  order, base, verify=verify)
     # ---- via a list of ParquetFile instances (fix 3306fff: a dataset instance stands for its directory)
-    compare("instances", lambda: ParquetFile([ParquetFile(p) for p in paths], verify=verify, **({"root": given_root} if given_root else {})),
+    compare("instances", lambda: ParquetFile([ParquetFile(p) for p in plist], verify=verify, **({"root": given_root} if given_root else {})),
             order, base, verify=verify)
     if case["bad_schema"] is None and case["cat_mode"] != "differ":
         # ---- correspondence with the merge model, both code paths
@@ -374,7 +396,7 @@ def check_dataset(case, root, pq, ctx=None, verbose=False):
         summaries = []
         schemas = []
         gid = 0
-        for p in paths:
+        for p in plist:
             pfi = ParquetFile(p)
             sid = next((si for si, sc in enumerate(schemas) if sc == pfi._schema), None)
             if sid is None:
@@ -388,13 +410,13 @@ def check_dataset(case, root, pq, ctx=None, verbose=False):
             summaries.append([pfi.file_scheme in ("simple", "empty"), sid, len(pfi.fmd.schema), rgs])
         for use_fs in (False, True):
             try:
-                bp, fmd = util.metadata_from_many(list(paths), verify_schema=False, root=given_root or False, fs=fs if use_fs else None)
+                bp, fmd = util.metadata_from_many(list(plist), verify_schema=False, root=given_root or False, fs=fs if use_fs else None)
                 impl = ["ok", bp, [[rg.num_rows, rg.columns[0].file_path] for rg in fmd.row_groups], fmd.num_rows]
             except ValueError:
                 impl = "ValueError"
             except Exception as e:      # noqa
                 impl = "Error"
-            mo = pq.call("merge", [L.enc(p) for p in paths], summaries, False, use_fs, [L.enc(given_root)] if given_root else [])
+            mo = pq.call("merge", [L.enc(p) for p in plist], summaries, False, use_fs, [L.enc(given_root)] if given_root else [])
             if isinstance(mo, (bytes, bytearray)):
                 model = bytes(mo).decode()
             else:
@@ -404,8 +426,7 @@ def check_dataset(case, root, pq, ctx=None, verbose=False):
                                    dict(_replayable(case), use_fs=use_fs), model, impl)
     if shape != "subdatasets":
         # ---- via directory and glob: files in the listing order (sorted paths)
-        sorted_order = sorted(order, key=lambda j: paths[j])
-        dbase = root if given_root or shape != "flat" else root
+        sorted_order = sorted(uniq_order, key=lambda j: paths[j])
         compare("directory", lambda: ParquetFile(root, verify=verify), sorted_order, root, verify=verify)
         depth = max(len(f["dir"]) for f in case["files"])
         if all(len(f["dir"]) == depth for f in case["files"]):
@@ -414,8 +435,8 @@ def check_dataset(case, root, pq, ctx=None, verbose=False):
     # ---- via merge(): writes _metadata, then the dataset opens through it
     if case["bad_schema"] is None:
         def do_merge():
-            out = writer.merge(list(paths), verify_schema=verify, **({"root": given_root} if given_root else {}))
-            return ParquetFile(os.path.dirname(out.fn))
+            out = writer.merge(list(plist), verify_schema=verify, **({"root": given_root} if given_root else {}))
+            return ParquetFile(os.path.dirname(out.fn) or ".")
         compare("merge", do_merge, order, base, verify=verify)
     for p in problems[:8]:
         say("PROBLEM:", p)
@@ -423,7 +444,7 @@ def check_dataset(case, root, pq, ctx=None, verbose=False):
 
 
 def _replayable(case):
-    return {k: case[k] for k in ("shape", "files", "root_mode", "cat_mode", "verify", "bad_schema")}
+    return {k: case.get(k) for k in ("shape", "files", "root_mode", "cat_mode", "verify", "bad_schema", "dup", "relative")}
 
 
 def replay(rep):
